@@ -342,6 +342,78 @@ func hexbs(items [][]byte) []HexB {
 
 type tmpl func(g *vlib.Rng, fl uint32) *Case
 
+// pickHT: the hash-type byte of an ECDSA signature (legacy and witness v0). Every one of the 256 values is
+// meaningful to consensus (without STRICTENC): the low five bits select NONE (2) / SINGLE (3) / otherwise ALL,
+// bit 7 is ANYONECANPAY, the whole byte goes into the message. Two draws in three come from `defined` (what wallets
+// produce), one in three is any byte, structured so that each field — the two low bits, bits 2..4, bits 5..6,
+// bit 7 — varies on its own.
+func pickHT(g *vlib.Rng, defined ...int) byte {
+	if g.Intn(3) != 0 {
+		return byte(g.Pick(defined...))
+	}
+	ht := byte(g.Intn(4))
+	if g.Intn(3) != 0 {
+		ht |= byte(g.Intn(8)) << 2
+	}
+	if g.Intn(4) == 0 {
+		ht |= byte(1+g.Intn(3)) << 5
+	}
+	if g.Intn(3) == 0 {
+		ht |= 0x80
+	}
+	return ht
+}
+
+// pickTapHT: the hash-type byte of a Schnorr signature; one draw in six is outside BIP341's seven defined values
+// (0 is never appended to the signature, so here it just means "64-byte signature").
+func pickTapHT(g *vlib.Rng, defined ...int) byte {
+	if g.Intn(6) != 0 {
+		return byte(g.Pick(defined...))
+	}
+	return byte(g.Intn(256))
+}
+
+// randShape turns the one-input one-output transaction of base1 into one with 1..4 inputs and 0..3 outputs, the input
+// under test at a random position (so SIGHASH_SINGLE meets both a matching output and none), random sequences,
+// amounts, version and lock time: everything a signature message commits to (or, depending on the hash type, must
+// NOT commit to) takes more than one value.
+func randShape(g *vlib.Rng, c *Case) {
+	nIns := g.Pick(1, 1, 2, 3, 4)
+	nOuts := g.Pick(1, 1, 2, 3, 0)
+	idx := g.Intn(nIns)
+	own, ownSpent := c.Ins[0], c.Spent[0]
+	c.Ins, c.Spent = nil, nil
+	for i := 0; i < nIns; i++ {
+		if i == idx {
+			c.Ins, c.Spent = append(c.Ins, own), append(c.Spent, ownSpent)
+			continue
+		}
+		c.Ins = append(c.Ins, In{PrevHash: g.Bytes(32), Vout: uint32(g.Intn(5)), Sequence: uint32(g.Pick(0, 5, 0x00400005, 0xfffffffe, 0xffffffff))})
+		var spk []byte
+		switch g.Intn(3) {
+		case 0:
+			spk = p2wpkh(g.Bytes(33))
+		case 1:
+			spk = witprog(1, g.Bytes(32))
+		default:
+			spk = randScript(g, 1+g.Intn(4), 0)
+		}
+		c.Spent = append(c.Spent, Out{Value: uint64(g.Intn(1e7)), Script: spk})
+	}
+	c.Idx = idx
+	c.Outs = c.Outs[:0]
+	for i := 0; i < nOuts; i++ {
+		c.Outs = append(c.Outs, Out{Value: uint64(g.Intn(1e6)), Script: HexB(randScript(g, 1+g.Intn(3), 0))})
+	}
+	c.Version = uint32(g.Pick(1, 2, 2, 3))
+	if g.Intn(3) == 0 {
+		c.LockTime = uint32(g.Pick(0, 100, 500000000, 0xffffffff))
+	}
+	if g.Intn(3) == 0 {
+		c.Ins[idx].Sequence = uint32(g.Pick(0, 5, 0x00400005, 0xfffffffe, 0xffffffff))
+	}
+}
+
 func templates() []tmpl {
 	return []tmpl{
 		func(g *vlib.Rng, fl uint32) *Case {
@@ -351,14 +423,14 @@ func templates() []tmpl {
 				pub = k.PubU
 			}
 			c := base1("gen-p2pkh", p2pkh(pub), 5000+uint64(g.Intn(1e6)), fl)
-			ht := byte(g.Pick(1, 1, 1, 2, 3, 0x81, 0x82, 0x83))
+			ht := pickHT(g, 1, 1, 1, 2, 3, 0x81, 0x82, 0x83)
 			c.setSig(cat(pushData(signLegacy(c, p2pkh(pub), k, ht)), pushData(pub)))
 			return c
 		},
 		func(g *vlib.Rng, fl uint32) *Case {
 			k := newKey(g)
 			c := base1("gen-p2pk", p2pk(k.Pub), 5000, fl)
-			c.setSig(pushData(signLegacy(c, p2pk(k.Pub), k, 1)))
+			c.setSig(pushData(signLegacy(c, p2pk(k.Pub), k, pickHT(g, 1))))
 			return c
 		},
 		func(g *vlib.Rng, fl uint32) *Case {
@@ -384,10 +456,11 @@ func templates() []tmpl {
 			start := g.Intn(n - m + 1)
 			var sigs [][]byte
 			for i := start; i < start+m; i++ {
+				ht := pickHT(g, 1, 1, 1, 2, 3, 0x81) // every signer of a multisig chooses a hash type of his own
 				if wrap == 2 {
-					sigs = append(sigs, signWitV0(c, ms, keys[i], 1))
+					sigs = append(sigs, signWitV0(c, ms, keys[i], ht))
 				} else {
-					sigs = append(sigs, signLegacy(c, ms, keys[i], 1))
+					sigs = append(sigs, signLegacy(c, ms, keys[i], ht))
 				}
 			}
 			if wrap == 2 {
@@ -408,11 +481,11 @@ func templates() []tmpl {
 			k := newKey(g)
 			if g.Bool() {
 				c := base1("gen-p2wpkh", p2wpkh(k.Pub), 6000, fl)
-				c.setWit(signWitV0(c, p2pkh(k.Pub), k, byte(g.Pick(1, 1, 2, 3, 0x81))), k.Pub)
+				c.setWit(signWitV0(c, p2pkh(k.Pub), k, pickHT(g, 1, 1, 2, 3, 0x81, 0x82, 0x83)), k.Pub)
 				return c
 			}
 			c := base1("gen-p2sh-p2wpkh", p2sh(p2wpkh(k.Pub)), 6000, fl)
-			c.setWit(signWitV0(c, p2pkh(k.Pub), k, 1), k.Pub)
+			c.setWit(signWitV0(c, p2pkh(k.Pub), k, pickHT(g, 1, 1, 2, 3, 0x81, 0x82, 0x83)), k.Pub)
 			c.setSig(pushData(p2wpkh(k.Pub)))
 			return c
 		},
@@ -425,7 +498,7 @@ func templates() []tmpl {
 				if g.Intn(4) == 0 {
 					annex = cat([]byte{0x50}, g.Bytes(g.Intn(5)))
 				}
-				sg := signTap(c, g, tapTweakPriv(tk.Priv, tw), annex, nil, 0, byte(g.Pick(0, 0, 1, 2, 3, 0x81, 0x83)), false)
+				sg := signTap(c, g, tapTweakPriv(tk.Priv, tw), annex, nil, 0, pickTapHT(g, 0, 0, 1, 2, 3, 0x81, 0x82, 0x83), false)
 				if annex != nil {
 					c.setWit(sg, annex)
 				} else {
@@ -452,7 +525,7 @@ func templates() []tmpl {
 				c0 |= 1
 			}
 			c := base1("gen-p2tr-script", witprog(1, qx), 6000, fl)
-			c.setWit(signTap(c, g, lk.Priv, nil, lh, 0xffffffff, byte(g.Pick(0, 1, 0x82)), true), scr, cat([]byte{c0}, tk.X, path))
+			c.setWit(signTap(c, g, lk.Priv, nil, lh, 0xffffffff, pickTapHT(g, 0, 1, 2, 3, 0x81, 0x82, 0x83), true), scr, cat([]byte{c0}, tk.X, path))
 			return c
 		},
 		func(g *vlib.Rng, fl uint32) *Case {
@@ -551,7 +624,7 @@ func templates() []tmpl {
 				ctl = cat([]byte{c0}, tk.X)
 				c = base1("gen-multicheck-tapscript", witprog(1, qx), 8000, fl)
 			}
-			ht := byte(g.Pick(1, 1, 1, 2, 3, 0x81, 0x83))
+			ht := pickHT(g, 1, 1, 1, 2, 3, 0x81, 0x83)
 			same := g.Bool()
 			wrong := -1
 			if g.Intn(4) == 0 {
@@ -565,10 +638,13 @@ func templates() []tmpl {
 					c.Kind += ":other-check's-script-code"
 				}
 				if !same {
-					ht = byte(g.Pick(1, 1, 2, 3, 0x81, 0x82, 0x83))
+					ht = pickHT(g, 1, 1, 2, 3, 0x81, 0x82, 0x83)
 				}
 				if tap {
 					h := ht
+					if h&0x7c != 0 && g.Intn(6) != 0 {
+						h &= 0x83 // mostly one of BIP341's defined values
+					}
 					if g.Intn(4) == 0 {
 						h = 0
 					}
@@ -650,7 +726,7 @@ func templates() []tmpl {
 			c := base1(kind, pk, 5000, fl)
 			c.setSig(sig)
 			c.LockTime = uint32(g.Pick(0, 100, 500000000))
-			c.Ins[0].Sequence = uint32(g.Pick(0, 5, 0xfffffffe, 0xffffffff, 0x00400005))
+			c.Ins[c.Idx].Sequence = uint32(g.Pick(0, 5, 0xfffffffe, 0xffffffff, 0x00400005))
 			return c
 		},
 	}
@@ -677,7 +753,49 @@ func mutate(g *vlib.Rng, c *Case) {
 		}
 		return nb
 	}
-	switch g.Intn(9) {
+	switch g.Intn(13) {
+	case 9, 10, 11, 12:
+		// the transaction AROUND the input: something a signature commits to under some hash types and not under
+		// others (another input's sequence / outpoint / spent output, an output, the output list, the version)
+		c.Kind += ":txctx"
+		other := g.Intn(len(c.Ins))
+		switch g.Intn(8) {
+		case 0:
+			c.Ins[other].Sequence ^= uint32(1 << uint(g.Intn(32)))
+		case 1:
+			c.Ins[other].Vout ^= uint32(1 << uint(g.Intn(3)))
+		case 2:
+			c.Ins[other].PrevHash = flip(append(make([]byte, 0, 32), c.Ins[other].PrevHash...))
+			for len(c.Ins[other].PrevHash) < 32 {
+				c.Ins[other].PrevHash = append(c.Ins[other].PrevHash, 0)
+			}
+			c.Ins[other].PrevHash = c.Ins[other].PrevHash[:32]
+		case 3:
+			if other < len(c.Spent) && other != c.Idx {
+				if g.Bool() {
+					c.Spent[other].Value++
+				} else {
+					c.Spent[other].Script = flip(c.Spent[other].Script)
+				}
+			}
+		case 4:
+			if len(c.Outs) > 0 {
+				c.Outs[g.Intn(len(c.Outs))].Value++
+			}
+		case 5:
+			if len(c.Outs) > 0 {
+				j := g.Intn(len(c.Outs))
+				c.Outs[j].Script = flip(c.Outs[j].Script)
+			}
+		case 6:
+			if len(c.Outs) > 0 && g.Bool() {
+				c.Outs = c.Outs[:len(c.Outs)-1]
+			} else {
+				c.Outs = append(c.Outs, Out{Value: uint64(g.Intn(1000)), Script: HexB{0x51}})
+			}
+		default:
+			c.Version ^= uint32(1 << uint(g.Intn(3)))
+		}
 	case 0:
 		in.SigScript = flip(in.SigScript)
 	case 1:
@@ -1051,13 +1169,30 @@ func generated() {
 	}
 	// ---- grammar-generated spends with real signatures, then mutations
 	ts := templates()
+	gs := r.Rng.Fork() // transaction shapes and signer mode: a stream of their own
+	shapeHook = func(c *Case) {
+		if gs.Intn(5) < 3 {
+			randShape(gs, c)
+		}
+	}
 	for i := 0; i < r.N(3500, 150000); i++ {
 		fl := randFlags(g)
-		if g.Intn(3) != 0 { // bias towards flag sets under which the template can succeed
+		switch g.Intn(6) {
+		case 0, 1, 2: // bias towards flag sets under which the template can succeed
 			fl |= script.VER_P2SH | script.VER_WITNESS | script.VER_TAPROOT
 			fl &^= script.VER_CLEANSTACK * uint32(g.Intn(2))
+		case 3, 4: // the flags blocks are validated with (no policy flag: every hash-type byte, every encoding the consensus rules take)
+			fl = consensusFlags
 		}
+		// one case in four is signed over the digests of the TREE's sighash functions, the others over the reference's
+		signWithTree = gs.Intn(4) == 0
 		c := ts[g.Intn(len(ts))](g, fl)
+		if signWithTree {
+			r.Hit("gen-signer:tree's-digest")
+		} else {
+			r.Hit("gen-signer:reference-digest")
+		}
+		r.Hit(fmt.Sprintf("gen-shape:%d-in/%d-out", len(c.Ins), len(c.Outs)))
 		if g.Intn(10) < 6 {
 			mutate(g, c)
 			if g.Intn(4) == 0 {
@@ -1066,6 +1201,7 @@ func generated() {
 		}
 		runCase(c)
 	}
+	shapeHook, signWithTree = nil, false
 	// ---- tapscript sigop budget at and around its boundary
 	budgetStream(r.Rng.Fork(), r.N(160, 6000))
 	_ = bytes.Equal
